@@ -20,9 +20,13 @@ RULE = (
 )
 
 
+S25 = {"name": "S25:empty-nested-abstract", "abstract": [["A", None, "ABC"], ["B", "A", "decorator"], ["Bx", "B", "decorator"]],
+       "prods": [["L", "A", None, [["v", G.IR01]]], ["P", "A", None, [["x", G.ref("A")]]]], "start": "A"}
+
+
 def hierarchies(tier):
     fam = G.general_family(tier)
-    extra = []
+    extra = [S25]
     # unreachable classes / partial considered lists / productions listed in different orders
     for spec in [s for s in fam if s["name"].startswith(("S", "F2:", "F3:"))]:
         s2 = dict(spec)
